@@ -17,6 +17,7 @@ harness and rendered as a Gallina `case` term):
   [10, ctx, router_id, cid?, attrs]       run_select's is_as_loop filter + PeerSession::rx_update
   [11, ctx, emax, raddr, cid?, source, nh?, attrs]   Table::insert + export, then Table::restale_llgr + export
   [13, ctx, emax, raddr, cid?, family, [change..], probe]   a history of changes through one ExportMap
+  [14, ..as 9.., [accept_all, [rt8..]]]   process_nlri_change with a real RtcFilter (from_paths)
   [12, ..as 9.., policy]                  process_nlri_change with a real one-statement table::PolicyAssignment
                                           policy = [nh_action?, med_action?, statement disposition, default disposition, as_prepend?]
 with attr = [code, flags, kind(0 Val,1 Bin,2 Opaque), payload], ip = [0|1, bytes],
@@ -209,6 +210,11 @@ def case_coq(c):
         body = 'CProcessPol %s %d %s %s %s %s %s (Build_stmt %s %s %s) %s %s' % (
             c_ctx(c[1]), c[2], c_ip(c[3]), copt(c[4], c_num), c_change(c[5]), c_emap(c[6]), cbytes(c[7]),
             copt(pol[0], c_nha), copt(pol[1], c_med), dn[pol[2]], copt(pol[4] if len(pol) > 4 else [], c_pre), dn[pol[3]])
+    elif t == 14:
+        r = c[8]
+        body = 'CProcessRtc %s %d %s %s %s %s %s %s %s' % (
+            c_ctx(c[1]), c[2], c_ip(c[3]), copt(c[4], c_num), c_change(c[5]), c_emap(c[6]), cbytes(c[7]),
+            c_bool(r[0]), cl([cbytes(rt) for rt in r[1]]))
     elif t == 13:
         body = 'CHistory %s %d %s %s %s %s' % (c_ctx(c[1]), c[2], c_ip(c[3]), copt(c[4], c_num),
                                                cl([c_change(ch) for ch in c[6]]), cbytes(c[7]))
@@ -449,7 +455,7 @@ def source_fingerprint(repo):
 class Prop:
     pid = 'C09'
     props_file = 'Props/C09.v'
-    required_theorems = ['no_echo', 'no_ibgp_nonclient_to_nonclient', 'no_rs_boundary_crossing', 'loops_never_installed', 'ebgp_rewrite', 'ebgp_any_policy', 'ibgp_rewrite', 'ibgp_local_pref_any_policy', 'reflection_adds_originator_and_cluster', 'confed_rewrite', 'llgr_stale_marked', 'llgr_stale_readvertised', 'llgr_stale_readvertised_refuted', 'unknown_attr_rule', 'unknown_attr_rule_any_policy', 'as_path_prepend_spec', 'as_path_full_segment_rule', 'as_path_strip_confed_spec', 'as_path_count_spec', 'ebgp_policy_med', 'policy_actions_keep_decodable', 'no_panic_on_decodable', 'as_path_view_unambiguous', 'llgr_view_refreshed', 'llgr_refresh_addpath', 'llgr_refresh_best_only', 'propagation_exactly_where_allowed', 'kernel_routes_withheld_from_nonclient_ibgp', 'best_only_complete', 'history_view_allowed', 'process_change_r_lower', 'process_change_r_lift', 'policy_prepend_then_export', 'loop_free_installed']
+    required_theorems = ['no_echo', 'no_ibgp_nonclient_to_nonclient', 'no_rs_boundary_crossing', 'loops_never_installed', 'ebgp_rewrite', 'ebgp_any_policy', 'ibgp_rewrite', 'ibgp_local_pref_any_policy', 'reflection_adds_originator_and_cluster', 'confed_rewrite', 'llgr_stale_marked', 'llgr_stale_readvertised', 'llgr_stale_readvertised_refuted', 'unknown_attr_rule', 'unknown_attr_rule_any_policy', 'as_path_prepend_spec', 'as_path_full_segment_rule', 'as_path_strip_confed_spec', 'as_path_count_spec', 'ebgp_policy_med', 'policy_actions_keep_decodable', 'no_panic_on_decodable', 'as_path_view_unambiguous', 'llgr_view_refreshed', 'llgr_refresh_addpath', 'llgr_refresh_best_only', 'propagation_exactly_where_allowed', 'kernel_routes_withheld_from_nonclient_ibgp', 'best_only_complete', 'history_view_allowed', 'process_change_r_lower', 'process_change_r_lift', 'policy_prepend_then_export', 'loop_free_installed', 'rtc_filter_is_a_policy_wrapper']
     correspondence_name = ('Model/Export.v run_case vs daemon/src/event/export.rs + packet/src/bgp.rs AS_PATH edits '
                            '(harness/daemon/export_hx.rs)')
     rule = ('cases = one call of a real function each (AS_PATH edit, is_as_loop, export_attrs, pre_policy_defaults, '
@@ -469,7 +475,8 @@ class Prop:
         'None or a one-statement table::PolicyAssignment with next-hop / MED / as-prepend actions and accept / reject '
         '(model: stmt_policy_r, which can panic like the code); conditions, the other actions and multi-statement chains '
         'are property C14',
-        'BMP Adj-RIB-Out notifications and the RTC filter arguments of process_nlri_change are passed as None',
+        'BMP Adj-RIB-Out notifications of process_nlri_change are passed as None (they do not feed back); the RTC filter is None or a real '
+        'RtcFilter built with from_paths from wildcard / exact-match RTC NLRIs (model: with_rtc, a wrapper around the policy)',
         'HashSet iteration order of the Add-Path withdrawals and the partition_point position of an injected LOCAL_PREF in a '
         'vector that is not partitioned by code are compared modulo order (the property does not constrain them)',
         'the LLGR scenario uses a one-destination, one-path table; Table::restale_llgr itself is modelled only for that shape',
@@ -558,8 +565,12 @@ class Prop:
         if maybe():
             attrs.append([CLUSTER_LIST, 0x80, 1, [x for _ in range(rng.choice([0, 1, 2, 3]))
                                                  for x in be32(rng.choice([0x01020304, 0x01000001, 0x0a0a0a0a]))]])
-        if maybe(0.2):
-            attrs.append([EXT_COMMUNITY, 0xC0, 1, [0, 2, 253, 233, 0, 0, 0, 1]])
+        if maybe(0.3):
+            rts = [rng.choice(self.RTS) for _ in range(rng.choice([0, 1, 1, 2, 3]))]
+            b = [x for rt in rts for x in rt]
+            if mode == 'any' and rng.random() < 0.2:
+                b = b + [0, 2, 253]                                  # ragged tail: chunks_exact ignores it
+            attrs.append([EXT_COMMUNITY, 0xC0, 1, b])
         if maybe():
             attrs.append([AIGP, 0x80, 1, [1, 0, 11, 0, 0, 0, 0, 0, 0, 0, 5]])
         if maybe(0.2):
@@ -596,6 +607,8 @@ class Prop:
                     continue
                 if a[0] in (COMMUNITY, CLUSTER_LIST) and len(a[3]) % 4:
                     continue
+                if (a[0] == EXT_COMMUNITY and len(a[3]) % 8) or (a[0] == LARGE_COMMUNITY and len(a[3]) % 12):
+                    continue
                 if a[2] == 1 and len(a[3]) > 255:
                     a[1] = CANON[a[0]] | 0x10 | rng.choice([0, 0x20])
                 else:
@@ -604,6 +617,7 @@ class Prop:
             rng.shuffle(attrs)
         return attrs
 
+    RTS = [[0, 2, 253, 233, 0, 0, 0, 1], [0, 2, 253, 233, 0, 0, 0, 2], [1, 2, 10, 0, 0, 1, 0, 9], [0, 2, 253, 234, 0, 0, 0, 1]]
     ADDR4 = [[0, [10, 0, 0, 1]], [0, [10, 0, 0, 2]], [0, [10, 0, 0, 3]], [0, [0, 0, 0, 0]]]
     ADDR6 = [[1, [0x20, 1, 0xd, 0xb8] + [0] * 11 + [1]], [1, [0x20, 1, 0xd, 0xb8] + [0] * 11 + [2]], [1, [0] * 16]]
     LL = [0xfe, 0x80] + [0] * 13 + [1]
@@ -753,6 +767,16 @@ class Prop:
         for _ in range(250 * scale):
             c9 = self.gen_process(rng)
             cases.append([12] + c9[1:] + [self.gen_policy(rng)])
+        # --- process_nlri_change with a real RtcFilter (RFC 4684 route-target constraint)
+        for _ in range(120 * scale):
+            c9 = self.gen_process(rng)
+            for p_ in c9[5][5]:
+                if rng.random() < 0.7 and find(p_[3], EXT_COMMUNITY) is None:
+                    rts = [rng.choice(self.RTS) for _ in range(rng.choice([1, 2]))]
+                    p_[3].append([EXT_COMMUNITY, 0xC0, 1, [b for rt in rts for b in rt]])
+            k = rng.random()
+            rtc = [1 if k < 0.1 else 0, [list(rt) for rt in rng.sample(self.RTS, rng.choice([0, 1, 1, 2]))]]
+            cases.append([14] + c9[1:] + [rtc])
         # --- histories through one ExportMap: announce / replace / re-rank / withdraw sequences over
         # two destinations and a small pool of paths, sources flipping to LLGR-stale in between
         for _ in range(150 * scale):
@@ -911,7 +935,7 @@ class Prop:
             lists = [c[2]]
         elif t == 10 and c[1][0] in (IBGP, RRC):
             lists = [c[4]]
-        elif t in (9, 12) and c[1][0] in (IBGP, RRC):
+        elif t in (9, 12, 14) and c[1][0] in (IBGP, RRC):
             lists = [p[3] for p in c[5][5]]
         elif t == 11 and c[1][0] in (IBGP, RRC):
             lists = [c[7]]
@@ -933,7 +957,7 @@ class Prop:
             return srt(obs)
         if t == 10:
             return [srt(o) for o in obs]
-        if t in (9, 12, 13):
+        if t in (9, 12, 13, 14):
             ops = [[o[0], o[1], o[2], o[3], srt(o[4]), o[5]] if o[0] == 1 else o for o in obs[0]]
             return [ops, obs[1]]
         if t == 11:
@@ -1016,7 +1040,7 @@ class Prop:
             if (role == RS) != (d == RS) and obs[2] != 1:
                 return 'route-server boundary not enforced'
             return None
-        if t in (9, 12):
+        if t in (9, 12, 14):
             return self.oracle_process(c, obs)
         if t == 13:
             return self.oracle_history(c, obs)
@@ -1246,7 +1270,7 @@ class Prop:
             return (t, self._shape(c[1]), self._shape(obs)) if obs != c[1] else None
         if t == 8:
             return (t, c[1][0], c[1][5] if c[1][0] == 2 else -1, c[2], bool(c[3]), tuple(obs)) if (obs[1] or obs[2]) else None
-        if t in (9, 12):
+        if t in (9, 12, 14):
             ch = c[5]
             srcs = tuple((p[1][0], p[1][5] if p[1][0] == 2 else -1) for p in ch[5])
             ops = tuple((o[0], self._shape(o[4]) if o[0] == 1 else ()) for o in obs[0])
@@ -1263,11 +1287,11 @@ class Prop:
 
     def classify(self, c, obs):
         names = ['prepend', 'strip_confed', 'is_as_loop', 'export_attrs', 'pre_policy_defaults', 'rr_reflect',
-                 'llgr_stale', 'inject_local_pref', 'suppress_predicates', 'process_nlri_change', 'rx_update', 'llgr_scenario', 'process_nlri_change_policy', 'history']
+                 'llgr_stale', 'inject_local_pref', 'suppress_predicates', 'process_nlri_change', 'rx_update', 'llgr_scenario', 'process_nlri_change_policy', 'history', 'process_nlri_change_rtc']
         tags = ['op_' + names[c[0]]]
         if obs == [-1]:
             tags.append('panic')
-        if c[0] in (3, 4, 9, 10, 11, 12, 13):
+        if c[0] in (3, 4, 9, 10, 11, 12, 13, 14):
             tags.append('dest_' + ROLE_NAMES[c[1][0]])
         # which branch of the model the case drives
         t = c[0]
@@ -1303,7 +1327,7 @@ class Prop:
                         'br_lp_inject_partitioned' if partitioned_lt5(c[1]) else 'br_lp_inject_unpartitioned')
         if t == 8 and obs != [-1]:
             tags.append('br_suppress_%d%d%d' % tuple(obs))
-        if t in (9, 12):
+        if t in (9, 12, 14):
             tags.append('br_emap_%s' % ['none', 'plain', 'addpath'][c[6][0]])
             if c[5][4]: tags.append('br_replaced_path_id')
             if not c[5][2]: tags.append('br_best_unchanged')
@@ -1316,7 +1340,7 @@ class Prop:
             tags.append('br_pol_prepend_%s' % (('left_most' if pol[4][0][2] else 'asn') + ('_x0' if pol[4][0][1] == 0 else '') if len(pol) > 4 and pol[4] else 'none'))
         if t == 10 and obs != [-1]:
             tags.append('br_rx_%s' % ('dropped' if obs == [] else 'installed'))
-        if c[0] in (9, 12) and obs != [-1]:
+        if c[0] in (9, 12, 14) and obs != [-1]:
             tags.append('emax_%s' % ('1' if c[2] == 1 else 'addpath'))
             tags.append('reach_%d' % min(3, sum(1 for o in obs[0] if o[0] == 1)))
             if any(o[0] == 0 for o in obs[0]): tags.append('withdraw')
